@@ -38,7 +38,10 @@ func leafVariants() []leafDoc {
 		}
 		return out
 	}
-	type leaf struct{ name, open, close string; kids []string }
+	type leaf struct {
+		name, open, close string
+		kids              []string
+	}
 	var leaves []leaf
 	for _, at := range []string{"", ` hamburger="hamburger"`, ` align="left" base-url="http://x"`} {
 		leaves = append(leaves, leaf{"navbar" + at, "<mj-navbar" + at + ">", "</mj-navbar>", seqs(func(i int) string {
